@@ -54,38 +54,49 @@ Proof.
   now apply andb_true_iff in H.
 Qed.
 
-(* G's skipping flag is S's (in_signature || other_signature) *)
-Lemma strip_pbsh_gen : forall ls insig other,
+(* the signature header of the repository's object format *)
+Definition sig_hdr (h : bytes) : Prop := h = k_gpgsig \/ h = k_gpgsig256.
+
+Lemma sp_not_h h l : sig_hdr h -> first_is SPC l = true -> starts_with (h ++ [SPC]) l = false.
+Proof. intros [-> | ->] H; apply first_is_true in H as [r ->]; reflexivity. Qed.
+Lemma lf_not_h h l : sig_hdr h -> first_is LF l = true -> starts_with (h ++ [SPC]) l = false.
+Proof. intros [-> | ->] H; apply first_is_true in H as [r ->]; reflexivity. Qed.
+Lemma h_sighdr h l : sig_hdr h -> starts_with (h ++ [SPC]) l = true -> is_sig_header l = true.
+Proof. intros [-> | ->] H; unfold is_sig_header; rewrite H; [reflexivity|apply orb_true_r]. Qed.
+
+(* G's skipping flag is S's (in_signature || other_signature), whichever of
+   the two headers is THE signature header *)
+Lemma strip_pbsh_gen h : sig_hdr h -> forall ls insig other,
   Forall line_ok ls -> foreign_gpgsig_free ls = true ->
-  strip_lines (insig || other) ls = fst (fst (pbsh k_gpgsig insig other ls)).
+  strip_lines (insig || other) ls = fst (fst (pbsh h insig other ls)).
 Proof.
-  induction ls as [|l r IH]; intros insig other Hok Hg; [reflexivity|].
+  intros Hh. induction ls as [|l r IH]; intros insig other Hok Hg; [reflexivity|].
   inversion Hok as [|? ? Hl Hr]; subst.
   cbn [strip_lines pbsh].
   destruct (first_is SPC l) eqn:Esp.
   - pose proof (sp_not_lf _ Esp) as Elf.
     destruct (guard_tail _ _ Elf Hg) as [_ Hgr].
-    rewrite (sp_not_sighdr _ Esp), (sp_not_gpgsig7 _ Esp), (sp_not_gpgsig _ Esp), Elf, (sp_not_blank _ Esp).
+    rewrite (sp_not_sighdr _ Esp), (sp_not_h _ _ Hh Esp), (sp_not_gpgsig _ Esp), Elf, (sp_not_blank _ Esp).
     rewrite !andb_true_r.
     destruct insig; cbn [orb andb negb].
     + specialize (IH true other Hr Hgr). cbn [orb] in IH.
-      destruct (pbsh k_gpgsig true other r) as [[p s] f]. exact IH.
+      destruct (pbsh h true other r) as [[p s] f]. exact IH.
     + destruct other; cbn [orb andb negb].
       * specialize (IH false true Hr Hgr). cbn [orb] in IH.
-        destruct (pbsh k_gpgsig false true r) as [[p s] f]. exact IH.
+        destruct (pbsh h false true r) as [[p s] f]. exact IH.
       * specialize (IH false false Hr Hgr). cbn [orb] in IH.
-        destruct (pbsh k_gpgsig false false r) as [[p s] f]. cbn [fst]. now rewrite IH.
+        destruct (pbsh h false false r) as [[p s] f]. cbn [fst]. now rewrite IH.
   - rewrite !andb_false_r.
-    destruct (starts_with (k_gpgsig ++ [SPC]) l) eqn:E7.
-    + assert (Eh : is_sig_header l = true) by (unfold is_sig_header; now rewrite E7).
-      destruct (guard_tail _ _ (gpgsig7_not_lf _ E7) Hg) as [_ Hgr].
+    destruct (starts_with (h ++ [SPC]) l) eqn:E7.
+    + pose proof (h_sighdr _ _ Hh E7) as Eh.
+      destruct (guard_tail _ _ (sighdr_not_lf _ Eh) Hg) as [_ Hgr].
       rewrite Eh. specialize (IH true false Hr Hgr). cbn [orb] in IH.
-      destruct (pbsh k_gpgsig true false r) as [[p s] f]. exact IH.
+      destruct (pbsh h true false r) as [[p s] f]. exact IH.
     + destruct (is_sig_header l) eqn:Eh.
       * destruct (guard_tail _ _ (sighdr_not_lf _ Eh) Hg) as [_ Hgr].
         rewrite (sighdr_gpgsig _ Eh), (sighdr_not_lf _ Eh).
         specialize (IH false true Hr Hgr). cbn [orb] in IH.
-        destruct (pbsh k_gpgsig false true r) as [[p s] f]. exact IH.
+        destruct (pbsh h false true r) as [[p s] f]. exact IH.
       * destruct (first_is LF l) eqn:Elf.
         -- rewrite <- (first_is_lf_blank _ Hl), Elf, (lf_not_gpgsig _ Elf).
            cbn [negb andb]. rewrite andb_true_r.
@@ -95,16 +106,22 @@ Proof.
            apply negb_true_iff in Hgl. rewrite Hgl. cbn [negb]. rewrite andb_true_r.
            specialize (IH false false Hr Hgr). cbn [orb] in IH.
            assert (Eo : (if other then false else other) = false) by (destruct other; reflexivity).
-           rewrite Eo. destruct (pbsh k_gpgsig false false r) as [[p s] f]. cbn [fst]. now rewrite IH.
+           rewrite Eo. destruct (pbsh h false false r) as [[p s] f]. cbn [fst]. now rewrite IH.
+Qed.
+
+Theorem strip_eq_pbsh_fmt : forall f raw,
+  commit_sig_guard raw = true ->
+  strip_header_sigs raw = fst (fst (git_commit_payload_fmt f raw)).
+Proof.
+  intros f raw Hg. unfold strip_header_sigs, git_commit_payload_fmt.
+  assert (Hh : sig_hdr (sig_header_of f)) by (destruct f; [now left|now right]).
+  exact (strip_pbsh_gen _ Hh (split_lines raw) false false (split_lines_ok raw) Hg).
 Qed.
 
 Theorem strip_eq_pbsh : forall raw,
   commit_sig_guard raw = true ->
   strip_header_sigs raw = fst (fst (git_commit_payload raw)).
-Proof.
-  intros raw Hg. unfold strip_header_sigs, git_commit_payload.
-  exact (strip_pbsh_gen (split_lines raw) false false (split_lines_ok raw) Hg).
-Qed.
+Proof. exact (strip_eq_pbsh_fmt SHA1). Qed.
 
 (* ---- a freshly decoded commit matches its source ---- *)
 Lemma ident_eqb_refl i : ident_eqb i i = true.
